@@ -240,6 +240,64 @@ func condLists() *core.Family {
 	}
 }
 
+// wide literals: set and record literals whose operand count crosses 8, 16, 32, 64 and
+// 128, constant everywhere except one request-dependent (or erroring) operand at the
+// first, a middle or the last position: whether the node folds must depend on ALL operands.
+func wideLiterals() *core.Family {
+	sizes := []int{1, 2, 3, 7, 8, 9, 15, 16, 17, 31, 32, 33, 63, 64, 65, 66, 100, 127, 128, 129, 200}
+	special := []*Expr{nil, Access(Var("context"), "a"), Access(Var("context"), "missing"), Bin(OAdd, L(Long(gen.MaxI)), L(Long(1))), Var("principal")}
+	type cse struct {
+		n, pos, sp int
+	}
+	var cases []cse
+	for _, n := range sizes {
+		seen := map[int]bool{}
+		for _, pos := range []int{0, n / 2, n - 1} {
+			if seen[pos] {
+				continue
+			}
+			seen[pos] = true
+			for sp := range special {
+				cases = append(cases, cse{n, pos, sp})
+			}
+		}
+	}
+	return &core.Family{
+		Name: "wide-literals",
+		Desc: fmt.Sprintf("set and record literals of n operands for n in %v, all constants except one operand (none / context.a / an erroring access / an overflowing constant / principal) at the first, middle or last position, used by contains, ==, attribute access and has: %d cases x %d environments", sizes, len(cases), len(implEnvs)),
+		N:    int64(len(cases)),
+		Run: func(t *core.T, i int64) {
+			c := cases[i]
+			elems := make([]*Expr, c.n)
+			keys := make([]string, c.n)
+			for k := range elems {
+				elems[k] = L(Long(int64(k + 10)))
+				keys[k] = fmt.Sprintf("k%d", k)
+			}
+			if special[c.sp] != nil {
+				elems[c.pos] = special[c.sp]
+			}
+			set := func() *Expr { return SetLit(append([]*Expr{}, elems...)...) }
+			rec := func() *Expr { return RecLit(append([]string{}, keys...), append([]*Expr{}, elems...)) }
+			es := []*Expr{
+				Bin(OContains, set(), L(Long(1))), Bin(OContains, set(), L(Long(int64(c.n+9)))), Bin(OContains, set(), Access(Var("context"), "a")),
+				Bin(OEq, set(), set()), Un(OIsEmpty, set()),
+				Bin(OEq, Access(rec(), fmt.Sprintf("k%d", c.pos)), L(Long(1))), Bin(OEq, Access(rec(), "k0"), L(Long(10))), Has(rec(), fmt.Sprintf("k%d", c.n-1)), Has(rec(), "absent"),
+			}
+			nontriv := false
+			for _, e := range es {
+				if checkExpr(t, fmt.Sprintf("wide:%s", e.Op), e, true) {
+					nontriv = true
+				}
+			}
+			if nontriv {
+				t.Nontrivial()
+			}
+			t.Sample(fmt.Sprintf("n=%d special operand %d at position %d", c.n, c.sp, c.pos))
+		},
+	}
+}
+
 func pow(b, e int) int64 {
 	r := int64(1)
 	for i := 0; i < e; i++ {
@@ -402,7 +460,7 @@ func Check() *core.Check {
 			} else {
 				fams = append(fams, depth1("depth1-if", gen.Ternary, small, 3), depth2(small[:5]))
 			}
-			return append(fams, shortCircuit(), condLists())
+			return append(fams, shortCircuit(), condLists(), wideLiterals())
 		},
 	}
 }
